@@ -8,6 +8,7 @@ scenario = {
   "tmraw": {"<node>": {"beta": [floats], "gamma": [floats]}}            raw values (property-based drivers)
   "props": {"C01": bool, "C04": bool, "C08": bool, "C09": bool},
   "costs": [{"name": str, "metric": str, "full": bool}],   (C04)
+  "pre":   [call names executed after the masks are written and before anything is observed]
 }
 """
 from __future__ import annotations
@@ -135,10 +136,45 @@ def run(sc: Dict[str, Any]) -> Dict[str, Any]:
     for node, bg in sc.get("tm", {}).items():
         i = int(node)
         sgn = lambda: rng.choice([1.0, -1.0])
-        pitdrv.set_beta_gamma(pit, i, [ABS2F[v] * sgn() for v in bg["b"]], [ABS2F[v] * sgn() for v in bg["g"]])
+        pitdrv.set_beta_gamma(pit, pitdrv.owner(arch, i), [ABS2F[v] * sgn() for v in bg["b"]], [ABS2F[v] * sgn() for v in bg["g"]])
         tm_abs[i] = bg
     for node, bg in sc.get("tmraw", {}).items():
-        pitdrv.set_beta_gamma(pit, int(node), bg.get("beta"), bg.get("gamma"))
+        pitdrv.set_beta_gamma(pit, pitdrv.owner(arch, int(node)), bg.get("beta"), bg.get("gamma"))
+
+    # ---- a history of calls that must not matter (the properties hold "whatever preceded")
+    for op in sc.get("pre", []):
+        try:
+            if op == "freeze_features":
+                pit.train_features = False
+            elif op == "freeze_rf":
+                pit.train_rf = False
+            elif op == "freeze_dilation":
+                pit.train_dilation = False
+            elif op == "train_net_only":
+                pit.train_net_only()
+            elif op == "train_nas_only":
+                pit.train_nas_only()
+            elif op == "train_net_and_nas":
+                pit.train_net_and_nas()
+            elif op == "summary":
+                pit.summary()
+            elif op == "cost":
+                float(pit.get_cost(costs[0]["name"]) if isinstance(cost_arg, dict) else pit.cost)
+            elif op == "continuous_cost":
+                pit.discrete_cost = False
+            elif op == "discrete_cost":
+                pit.discrete_cost = True
+            elif op == "train_mode_roundtrip":
+                pit.train()
+                pit.eval()
+            elif op == "export":
+                with warnings.catch_warnings():
+                    warnings.simplefilter("ignore")
+                    pit.export()
+                pit.eval()
+        except Exception:
+            pass
+    pit.discrete_cost = True
 
     # ---- observe the NAS model
     obs = pitdrv.observe_layers(pit, arch)
